@@ -236,6 +236,17 @@ def run(prop_id, tier, seed, replay=None):
                          "init_chains": r["uni"]["init_chains"], "checkpoints": r["uni"]["checkpoints"]}
                         for r in runs],
         }
+        if prop_id == "C19" and not replay:
+            # "events are emitted in the order the chain changed" also under concurrency: the CFSync
+            # family's CFRace slice runs rollBackToHeight against writeCFHeadersMsg on two real
+            # goroutines at store-call and event-delivery granularity; its coverage is merged here.
+            from . import cfsync
+            rc2, cov2 = cfsync.run_race("C19", tier, seed)
+            rc = max(rc, rc2)
+            cov["concurrency_slice_cfrace"] = {k: v for k, v in cov2.items() if k != "samples"}
+            for k in ("states", "transitions", "traces_validated_against_impl"):
+                cov[k] += int(cov2.get(k, 0) or 0)
+            nviol += int(cov2.get("new_violations", 0) or 0)
         core.write_evidence(prop_id, tier, seed, "model_checking", cov, ASSUMPTIONS, time.time() - t0, nviol)
         return rc
     finally:
